@@ -84,6 +84,9 @@ def run_case(ck, paths, idx):
     # output file names of up to 240 characters (the MSF header line carries the base name)
     stem = {F: ("a" if rng.random() < 0.7 else "n" * rng.choice([150, 200, 240])) for F in FORMATS}
     script = ["read 0 %s" % f, "run 0 %d 5 -1 -1 -1" % nt, "dump 0"] + ["write 0 %s %s/%s.%s" % (F, d, stem[F], F) for F in FORMATS] + ["free 0"]
+    # conversion path: one of the files just written is read back and written again (no kalign_run in between)
+    reF = rng.choice(FORMATS)
+    script += ["read 1 %s/%s.%s" % (d, stem[reF], reF)] + ["write 1 %s %s/conv.%s" % (F, d, F) for F in FORMATS] + ["free 1"]
     r, lrecs = common.kvdrv(paths, script, scratch=ck.scratch, timeout=900, cpu=600)
     ctx = {"class": case["cls"], "kind": kind, "idx": idx, "input": recs if len(recs) * max(len(s) for _, s in recs) < 40000 else "(seed-derived)"}
     if ck.proc_violations(r, ctx, allow_rcs=(0,)):
@@ -106,6 +109,13 @@ def run_case(ck, paths, idx):
             ck.violation("file-missing:%s" % F, "no %s file written" % F, ctx)
             continue
         files[(F, "file")] = open(p, "rb").read()
+    if any("-" in s_ for _, s_ in A):
+        for F in FORMATS:
+            p = "%s/conv.%s" % (d, F)
+            if os.path.exists(p):
+                files[(F, "converted-from-%s" % reF)] = open(p, "rb").read()
+            else:
+                ck.violation("file-missing:converted-%s" % F, "conversion %s -> %s of a gapped alignment produced no file" % (reF, F), ctx)
     # the same alignment through the CLI to stdout in one random format
     F = rng.choice(FORMATS)
     res = common.kalign_cli(paths, [f], args=["-f", F], nthreads=nt, out=None)
